@@ -619,7 +619,10 @@ func (s *sess) execute(a kv, c cmd.Command, then func()) (err error, panicked bo
 			}
 		}
 		if !s.asNobody(s.roFiles(a), func() { err, panicked = s.execute(b, c, then) }) {
-			must(fmt.Errorf("ro=: the effective uid cannot be dropped"))
+			// this environment cannot show the scenario (not root, or the files are out of that user's reach): the
+			// command runs as it is, and the model is told so (roskip=1)
+			s.st["roskip"] = true
+			return s.execute(b, c, then)
 		}
 		return err, panicked
 	}
